@@ -117,10 +117,19 @@ type bHarness struct {
 	pending  []*bPending
 	createOK bool
 	killGate map[string]*bGate // uuid -> gate that parks the next --kill for it
+	listGate map[*bInst]*bGate // instance -> gate that parks the ANSWER of the next --list (computed on arrival, delivered on release)
+	slow     []*bSlowProbe     // probes whose --list answer is parked
 	hist     []string
 	// R1 bookkeeping: uuid -> instance the pool started it on / saw it on
 	expect map[string]*bExpect
 	labels map[string]bool
+}
+
+type bSlowProbe struct {
+	inst *bInst
+	gate *bGate
+	done chan struct{}
+	pan  interface{}
 }
 
 type bGate struct {
@@ -200,43 +209,20 @@ func (e *bExec) Execute(env map[string]string, cmd string, stdin io.Reader) (std
 		return nil, nil, nil
 	case cmd == "crunch-run --list":
 		h.mu.Lock()
-		defer h.mu.Unlock()
-		if !inst.exists || !inst.responsive || !inst.booted {
-			return fail("no answer")
+		gate := h.listGate[inst]
+		delete(h.listGate, inst)
+		h.mu.Unlock()
+		// A parked answer may legitimately be discarded by the pool as stale
+		// when it finally arrives, so it creates no obligation to report the
+		// processes it shows (it may still relax obligations: dead ones).
+		stdout, stderr, err = e.list(gate != nil)
+		if gate != nil {
+			// the answer was computed above; it is delivered when the
+			// machine releases the gate (a slow probe)
+			gate.once.Do(func() { close(gate.arrived) })
+			<-gate.release
 		}
-		inst.listAnswered = true
-		var out []string
-		uuids := make([]string, 0, len(inst.procs))
-		for u := range inst.procs {
-			uuids = append(uuids, u)
-		}
-		sort.Strings(uuids)
-		for _, u := range uuids {
-			p := inst.procs[u]
-			switch {
-			case p.alive:
-				out = append(out, u)
-				if ex := h.expect[u]; ex == nil || ex.inst != inst {
-					h.expect[u] = &bExpect{inst: inst}
-				} else {
-					ex.learned = false
-				}
-			case p.stale:
-				out = append(out, u+" stale")
-			}
-		}
-		for u, ex := range h.expect {
-			if ex.inst == inst && (inst.procs[u] == nil || !inst.procs[u].alive) {
-				ex.learned = true
-			}
-		}
-		if inst.broken {
-			out = append(out, "broken")
-			if inst.idle == IdleBehaviorRun {
-				inst.idle = IdleBehaviorDrain
-			}
-		}
-		return []byte(strings.Join(out, "\n") + "\n"), nil, nil
+		return
 	case strings.HasPrefix(cmd, "crunch-run --detach "):
 		uuid := bUUIDRe.FindString(cmd)
 		p := &bPending{inst: inst, uuid: uuid, arrive: make(chan struct{}), ret: make(chan struct{})}
@@ -279,6 +265,52 @@ func (e *bExec) Execute(env map[string]string, cmd string, stdin io.Reader) (std
 	return fail("command not found: " + cmd)
 }
 
+// list computes the answer to "crunch-run --list" from the model process table.
+func (e *bExec) list(parked bool) (stdout, stderr []byte, err error) {
+	h, inst := e.h, e.inst
+	fail := func(msg string) ([]byte, []byte, error) { return nil, []byte(msg + "\n"), errors.New(msg) }
+	h.mu.Lock()
+	defer h.mu.Unlock()
+	if !inst.exists || !inst.responsive || !inst.booted {
+		return fail("no answer")
+	}
+	inst.listAnswered = true
+	var out []string
+	uuids := make([]string, 0, len(inst.procs))
+	for u := range inst.procs {
+		uuids = append(uuids, u)
+	}
+	sort.Strings(uuids)
+	for _, u := range uuids {
+		p := inst.procs[u]
+		switch {
+		case p.alive:
+			out = append(out, u)
+			if parked {
+				// no new obligation
+			} else if ex := h.expect[u]; ex == nil || ex.inst != inst {
+				h.expect[u] = &bExpect{inst: inst}
+			} else {
+				ex.learned = false
+			}
+		case p.stale:
+			out = append(out, u+" stale")
+		}
+	}
+	for u, ex := range h.expect {
+		if ex.inst == inst && (inst.procs[u] == nil || !inst.procs[u].alive) {
+			ex.learned = true
+		}
+	}
+	if inst.broken {
+		out = append(out, "broken")
+		if inst.idle == IdleBehaviorRun {
+			inst.idle = IdleBehaviorDrain
+		}
+	}
+	return []byte(strings.Join(out, "\n") + "\n"), nil, nil
+}
+
 // ---- the property
 
 func bType(i int) arvados.InstanceType {
@@ -307,7 +339,7 @@ func TestVerifC14bPool(t *testing.T) {
 	logger.Out = ioutil.Discard
 	types := []arvados.InstanceType{bType(1), bType(2)}
 	rapid.Check(t, func(t *rapid.T) {
-		h := &bHarness{createOK: true, expect: map[string]*bExpect{}, labels: map[string]bool{}, killGate: map[string]*bGate{}}
+		h := &bHarness{createOK: true, expect: map[string]*bExpect{}, labels: map[string]bool{}, killGate: map[string]*bGate{}, listGate: map[*bInst]*bGate{}}
 		hour := arvados.Duration(time.Hour)
 		cluster := &arvados.Cluster{
 			Containers: arvados.ContainersConfig{
@@ -363,6 +395,14 @@ func TestVerifC14bPool(t *testing.T) {
 					close(p.arrive)
 				}
 				close(p.ret)
+			}
+			h.mu.Lock()
+			slow := h.slow
+			h.slow = nil
+			h.mu.Unlock()
+			for _, sp := range slow {
+				close(sp.gate.release)
+				<-sp.done
 			}
 			wp.Stop()
 			wp.mtx.Lock()
@@ -613,6 +653,75 @@ func TestVerifC14bPool(t *testing.T) {
 				st := wkr.state
 				wp.mtx.Unlock()
 				h.logf("probe(%s)->%s", inst.id, st)
+				nActions++
+			},
+			"slowProbe": func(t *rapid.T) {
+				// a run-probe whose "crunch-run --list" answer is computed now
+				// but reaches the pool only after other actions
+				// (slowProbeDeliver) - e.g. after a --detach has started the
+				// process and Start() has returned
+				inst := pickInst(t)
+				wkr := workerOf(inst)
+				if wkr == nil {
+					t.Skip("not in pool")
+				}
+				h.mu.Lock()
+				ok := inst.exists && inst.responsive && inst.booted && !inst.broken && h.listGate[inst] == nil // (a "broken" answer changes the model's idle behaviour when computed, so it is never parked)
+				for _, sp := range h.slow {
+					if sp.inst == inst {
+						ok = false
+					}
+				}
+				gate := &bGate{arrived: make(chan struct{}), release: make(chan struct{})}
+				if ok {
+					h.listGate[inst] = gate
+				}
+				h.mu.Unlock()
+				if !ok {
+					t.Skip("instance would not answer / already has a slow probe")
+				}
+				sp := &bSlowProbe{inst: inst, gate: gate, done: make(chan struct{})}
+				go func() {
+					defer close(sp.done)
+					defer func() { sp.pan = recover() }()
+					wkr.ProbeAndUpdate()
+				}()
+				select {
+				case <-gate.arrived:
+					h.mu.Lock()
+					h.slow = append(h.slow, sp)
+					h.mu.Unlock()
+					h.labels["slow-probe-parked"] = true
+					h.logf("slowProbe(%s): --list answered, delivery parked", inst.id)
+				case <-sp.done:
+					// the probe did not get as far as --list (boot probe failed, or another probe was running)
+					h.mu.Lock()
+					delete(h.listGate, inst)
+					h.mu.Unlock()
+					if sp.pan != nil {
+						t.Fatalf("R3: panic %q in probe(%s)\nhistory:\n%s", fmt.Sprint(sp.pan), inst.id, strings.Join(h.hist, "\n"))
+					}
+					h.logf("slowProbe(%s): finished without --list", inst.id)
+				}
+				nActions++
+			},
+			"slowProbeDeliver": func(t *rapid.T) {
+				h.mu.Lock()
+				if len(h.slow) == 0 {
+					h.mu.Unlock()
+					t.Skip("no parked probe")
+				}
+				k := rapid.IntRange(0, len(h.slow)-1).Draw(t, "which")
+				sp := h.slow[k]
+				h.slow = append(h.slow[:k:k], h.slow[k+1:]...)
+				h.mu.Unlock()
+				close(sp.gate.release)
+				<-sp.done
+				if sp.pan != nil {
+					t.Fatalf("R3: panic %q when the parked --list answer of %s was delivered\nhistory:\n%s", fmt.Sprint(sp.pan), sp.inst.id, strings.Join(h.hist, "\n"))
+				}
+				h.labels["slow-probe-delivered"] = true
+				h.logf("slowProbeDeliver(%s)", sp.inst.id)
 				nActions++
 			},
 			"age": func(t *rapid.T) {
@@ -1007,7 +1116,7 @@ func TestVerifC14bPool(t *testing.T) {
 			},
 		}
 		// weight the actions that move the pool's bookkeeping
-		for _, k := range []string{"start", "probe", "detachArrive", "detachReturn", "procExit", "sync"} {
+		for _, k := range []string{"start", "probe", "detachArrive", "detachReturn", "procExit", "sync", "slowProbe", "slowProbeDeliver"} {
 			actions[k+"2"] = actions[k]
 		}
 		actions["probe3"] = actions["probe"]
